@@ -59,6 +59,7 @@ pub open spec fn wf_gdt<const MAX: usize>(g: GlobalDescriptorTable<MAX>) -> bool
 //@ end
 
 //@ fn src/structures/gdt.rs | impl Entry | new
+//@ obligation C14 C14.GdtEntry_new.stores_raw
 //@ keepconst
 //@ sub /#\[cfg\(all\(feature = "instructions", target_arch = "x86_64"\)\)\]\s*let raw = EntryValue::new\(raw\);/ => 
 //@ A
@@ -66,6 +67,7 @@ pub open spec fn wf_gdt<const MAX: usize>(g: GlobalDescriptorTable<MAX>) -> bool
 //@ end
 
 //@ fn src/structures/gdt.rs | impl Entry | raw
+//@ obligation C14 C14.GdtEntry_raw.returns_stored
 //@ sub /#\[cfg\(all\(feature = "instructions", target_arch = "x86_64"\)\)\]\s*let raw = self\.0\.load\(Ordering::SeqCst\);/ => 
 //@ sub /#\[cfg\(not\(all\(feature = "instructions", target_arch = "x86_64"\)\)\)\]/ => 
 //@ A
@@ -109,6 +111,7 @@ pub fn gdt_null_table<const MAX: usize>() -> (r: [Entry; MAX])
 //@ end
 
 //@ fn src/structures/gdt.rs | impl<const MAX: usize> GlobalDescriptorTable<MAX> | push
+//@ obligation C14 C14.Gdt_push.writes_slot_len_only
 //@ A
     requires old(self).len < MAX, MAX <= 8192, old(self).len >= 1,
     ensures
